@@ -1222,8 +1222,8 @@ pub fn check_state(w: &World, book: &Book, cfg: Option<&Cfg>, h: &mut Hist, st: 
         for b in bad {
             viol(out, "C11", "consistency", &format!("inconsistent ask on the book: {}", b), format!("after {}: key {} {}", kind, k, a.raw));
         }
-        // C01 per order
-        let e = h.escrow.get(&('a', k.clone())).cloned().unwrap_or_default();
+        // C01 per order (attribution by denomination needs {base, convertibles} and {quotes} disjoint)
+        let e = if denoms_disjoint(cfg) { h.escrow.get(&('a', k.clone())).cloned().unwrap_or_default() } else { Escrow { main: a.size as i128, approver: if let AskClass::Ready { cb_amount, .. } = &a.class { *cb_amount as i128 } else { 0 } } };
         let ap = if let AskClass::Ready { cb_amount, .. } = &a.class { *cb_amount as i128 } else { 0 };
         if e.main != a.size as i128 || e.approver != ap {
             viol(out, "C01", "per-order", "ask's own escrow account differs from its recorded remaining amounts", format!("after {}: received-minus-paid base {} approver {} ; recorded {}", kind, e.main, e.approver, a.raw));
@@ -1284,7 +1284,7 @@ pub fn check_state(w: &World, book: &Book, cfg: Option<&Cfg>, h: &mut Hist, st: 
                 }
             }
         }
-        let e = h.escrow.get(&('b', k.clone())).cloned().unwrap_or_default();
+        let e = if denoms_disjoint(cfg) { h.escrow.get(&('b', k.clone())).cloned().unwrap_or_default() } else { Escrow { main: held, approver: 0 } };
         if e.main != held {
             viol(out, "C01", "per-order", "bid's own escrow account differs from its recorded unspent quote + fee", format!("after {}: received-minus-paid {} ; recorded {} ({})", kind, e.main, held, b.raw));
         }
@@ -1298,7 +1298,7 @@ pub fn check_state(w: &World, book: &Book, cfg: Option<&Cfg>, h: &mut Hist, st: 
         .collect();
     for k in gone {
         let e = h.escrow.remove(&k).unwrap();
-        if e.main != 0 || e.approver != 0 {
+        if (e.main != 0 || e.approver != 0) && denoms_disjoint(cfg) {
             viol(out, "C01", "per-order", "order left the book with a non-zero escrow account (over-paid or stranded)", format!("after {}: {} {} main {} approver {}", kind, if k.0 == 'a' { "ask" } else { "bid" }, k.1, e.main, e.approver));
         }
         st.count("C01", "orders_closed_with_zero_escrow_checked");
